@@ -9,6 +9,7 @@
                                       anywhere, any cuts between the layers): header ++ enc_format (layer plaintext)
      enc_format_byte                  byte i of chunk j = plaintext byte XOR keystream (j, i)
      plain_windows_need_keystream_coincidence *)
+From MLA Require Import Limit.
 From MLA Require Import Base Stream EncLayer EncLayerProofs EncWriter EncWriterProofs Masked
   CompLayer Blocks Writer Format Ecies Archive ArchiveProofs.
 From Coq Require Import ZifyBool ZifyNat ZifyN.
@@ -34,6 +35,7 @@ Proof.
 Qed.
 
 Section MaskedProofs.
+  Context {LIM : Limit}.
   Variables CHUNK TAG CIPHERBUF : N.
   Hypothesis HCHUNK : 0 < CHUNK.
   Variable ks : N -> N -> N.
@@ -142,6 +144,7 @@ End MaskedProofs.
 (* ---------- the whole archive ---------- *)
 Section ArchiveMasked.
   Variables CHUNK CIPHERBUF BLOCK LIMIT FNMAX : N.
+  Local Hint Extern 0 Limit => exact LIMIT : typeclass_instances.
   Variables TS TC TA TE : N.
   Variable H : bytes -> bytes.
   Variable order : footer -> footer.
@@ -173,7 +176,7 @@ Section ArchiveMasked.
     destruct (dump_header LIMIT _) as [hdr|e|c] eqn:Hh; cbn [bind] in Ha; try discriminate.
     destruct (wrun FNMAX TS TC TA TE H order w_init (ops ++ [OFinalize])) as [sf rs'] eqn:Hw.
     destruct (first_bad rs') as [u|e|c]; cbn [bind] in Ha; try discriminate.
-    destruct (lower_write CHUNK CIPHERBUF BLOCK ksf tagf cfg cut_top cut_mid (w_out sf)) as [body|e|c] eqn:Hl;
+    destruct (lower_write CHUNK CIPHERBUF BLOCK LIMIT ksf tagf cfg cut_top cut_mid (w_out sf)) as [body|e|c] eqn:Hl;
       cbn [bind] in Ha; try discriminate.
     injection Ha as <-. exists hdr.
     unfold lower_write in Hl. rewrite He in Hl.
